@@ -14,10 +14,6 @@ open LM LM.Wire.ApiInts
 
 /-! ## Integer response codec -/
 
-/-- Full-strength statement of the integer part of C16: every i64 column survives
-    serialize → deserialize unchanged (in particular neither side panics). -/
-def C16_ints_statement : Prop := ∀ xs : List Int, AllI64 xs → roundtrip xs = .ok xs
-
 theorem C16_ints_width_in_i64 (w : Width) : I64_MIN ≤ w.lo ∧ w.hi ≤ I64_MAX := by
   cases w <;> simp [Width.lo, Width.hi, I64_MIN, I64_MAX]
 
@@ -30,47 +26,61 @@ theorem C16_ints_delta_layout (w : Width) (a : Int) (rest : List Int) (hall : Al
   obtain ⟨e1, e2⟩ := deltaLoop_rt w.lo w.hi hlo hhi rest a (fun x hx => hall x (by simp [hx])) hb
   exact ⟨.delta w a (deltasFrom a rest), by simp [mkDelta, deltaEncode, e1], by simp [decode, e2]⟩
 
-/-- Double-delta layouts: whenever all second differences fit `w` (and the first differences fit i64),
-    `double_delta_encode::<w>` does not panic and the decoder returns the input. -/
+/-- Double-delta layouts: whenever all second differences fit `w`, `double_delta_encode::<w>` does not panic
+    and the decoder returns the input — also when first differences exceed i64 (both sides keep them
+    modulo 2^64). -/
 theorem C16_ints_ddelta_layout (w : Width) (a b : Int) (rest : List Int) (hall : AllI64 (a :: b :: rest))
-    (hd0 : inI64 (b - a)) (hds : ∀ d ∈ deltasFrom b rest, inI64 d)
     (hb : ∀ dd ∈ deltasFrom (b - a) (deltasFrom b rest), w.lo ≤ dd ∧ dd ≤ w.hi) :
     ∃ l, mkDDelta w (a :: b :: rest) = .ok l ∧ decode l = .ok (a :: b :: rest) := by
   obtain ⟨hlo, hhi⟩ := C16_ints_width_in_i64 w
-  obtain ⟨e1, e2⟩ := ddLoop_rt w.lo w.hi hlo hhi rest b (b - a)
-    (fun x hx => hall x (by simp [hx])) hds hb
+  obtain ⟨e1, e2⟩ := ddLoop_rt w.lo w.hi hlo hhi rest b (b - a) (fun x hx => hall x (by simp [hx])) hb
   exact ⟨.ddelta w a b (deltasFrom (b - a) (deltasFrom b rest)),
-    by simp [mkDDelta, ddEncode, subI64, hd0, e1], by simp [decode, subI64, hd0, e2]⟩
+    by simp [mkDDelta, ddEncode, e1], by simp [decode, e2]⟩
 
-/-- Range layout: a sequence with constant difference `s` decodes to itself provided `(len-1)·s` fits i64
-    (the decoder multiplies before it adds). -/
+/-- Range layout: every i64 sequence with constant difference `s` decodes to itself, whatever the size of
+    the products `i * s` the decoder forms. -/
 theorem C16_ints_range_layout (a s : Int) (rest : List Int) (hall : AllI64 (a :: rest))
-    (hc : ∀ d ∈ deltasFrom a rest, d = s) (hm : inI64 ((rest.length : Int) * s)) :
+    (hc : ∀ d ∈ deltasFrom a rest, d = s) :
     decode (.range a (a :: rest).length s) = .ok (a :: rest) := by
   have ha : inI64 a := hall a (by simp)
-  have h0 : inI64 (0 : Int) := by decide
   have hr := range_rt a s rest a 0 (by simp) hc (fun x hx => hall x (by simp [hx]))
-    (fun j hj => mul_inI64_of_le (by omega) hm)
-  simp only [decode, List.length_cons, rangeDecodeFrom, mulI64]
-  simp [h0, addI64, ha, hr]
+  have h0 : wrap64 (a + wrap64 (wrap64 ((0 : Nat) : Int) * s)) = a := by
+    have := wrap_range_elem a s 0 (by simpa using ha)
+    simpa using this
+  simp only [decode, List.length_cons, rangeDecodeFrom, h0]
+  simp [hr]
 
-/-- Integer columns round-trip through whichever of the eight layouts the ladder picks, for every i64
-    sequence outside the two open findings (an adjacent difference overflowing i64 —
-    `api-delta-i64-overflow`; a constant-step sequence whose `(len-1)·step` overflows —
-    `api-range-decode-mul-overflow`). -/
-theorem C16_ints_roundtrip_partial (xs : List Int) (hall : AllI64 xs)
-    (h1 : diffOverflows xs = false) (h2 : rangeMulOverflows xs = false) :
-    roundtrip xs = .ok xs := by
-  match xs, hall, h1, h2 with
-  | [], _, _, _ => simp [roundtrip, encode, determineDelta, ladder, I128_MIN, I128_MAX, I64_MAX, Width.lo, decode]
-  | [a], _, _, _ => simp [roundtrip, encode, determineDelta, ladder, I128_MIN, I128_MAX, I64_MAX, Width.lo, decode]
-  | a :: b :: rest, hall, h1, h2 =>
-    have hdel := deltas_all_inI64_of_not_overflows h1
-    simp only [deltas] at hdel
-    have hd0 : inI64 (b - a) := hdel _ (by simp [deltasFrom])
-    have hds : ∀ d ∈ deltasFrom b rest, inI64 d := fun d hd => hdel d (by simp [deltasFrom, hd])
-    obtain ⟨st, hst, m1, m2, _, _, hb1, hb2⟩ := statsLoop_spec rest b (b - a)
-      { minDelta := b - a, maxDelta := b - a, minDD := I128_MAX, maxDD := I128_MIN } hds
+/-- The i128 statistics of `determine_delta_compressability` cannot overflow on i64 input: first differences
+    have magnitude < 2^64, second differences < 2^65 (so modelling them as exact integers is faithful). -/
+theorem C16_ints_stats_in_i128 (a b : Int) (rest : List Int) (hall : AllI64 (a :: b :: rest)) :
+    (∀ d ∈ deltasFrom a (b :: rest), I128_MIN < d ∧ d < I128_MAX) ∧
+    (∀ dd ∈ deltasFrom (b - a) (deltasFrom b rest), I128_MIN < dd ∧ dd < I128_MAX) := by
+  have ha : inI64 a := hall a (by simp)
+  have h1 := deltas_in_i128 (b :: rest) a ha (fun x hx => hall x (by simp [hx]))
+  have h2 := ddeltas_in_i128 (deltasFrom b rest) (b - a) (h1 _ (by simp [deltasFrom]))
+    (fun d hd => h1 d (by simp [deltasFrom, hd]))
+  unfold I128_MIN I128_MAX
+  exact ⟨fun d hd => by have := h1 d hd; omega, fun d hd => by have := h2 d hd; omega⟩
+
+/-- **`ints_layout_roundtrip`** — the integer part of C16 at full strength: every i64 column of any length
+    survives `serialize_builder` → `deserialize_reader` unchanged, whichever of the eight layouts the ladder
+    picks; neither side panics (dev-profile arithmetic).  This covers sequences whose adjacent differences
+    overflow i64 and arithmetic progressions whose `i * step` overflows (the two former findings). -/
+theorem C16_ints_layout_roundtrip (xs : List Int) (hall : AllI64 xs) : roundtrip xs = .ok xs := by
+  match xs, hall with
+  | [], _ => simp [roundtrip, encode, determineDelta, ladder, I128_MIN, I128_MAX, I64_MAX, Width.lo, decode]
+  | [a], _ => simp [roundtrip, encode, determineDelta, ladder, I128_MIN, I128_MAX, I64_MAX, Width.lo, decode]
+  | a :: b :: rest, hall =>
+    have hspec := statsLoop_spec rest b (b - a)
+      { minDelta := b - a, maxDelta := b - a, minDD := I128_MAX, maxDD := I128_MIN }
+    have henc : encode (a :: b :: rest) = ladder (statsLoop rest b (b - a)
+        { minDelta := b - a, maxDelta := b - a, minDD := I128_MAX, maxDD := I128_MIN }) (a :: b :: rest) := by
+      simp [encode, determineDelta]
+    revert hspec henc
+    generalize statsLoop rest b (b - a)
+      { minDelta := b - a, maxDelta := b - a, minDD := I128_MAX, maxDD := I128_MIN } = st
+    intro hspec henc
+    obtain ⟨m1, m2, _, _, hb1, hb2⟩ := hspec
     simp only at m1 m2
     -- bounds for all first differences including the first one
     have hall1 : ∀ d ∈ deltasFrom a (b :: rest), st.minDelta ≤ d ∧ d ≤ st.maxDelta := by
@@ -78,8 +88,6 @@ theorem C16_ints_roundtrip_partial (xs : List Int) (hall : AllI64 xs)
       rcases mem_deltasFrom_cons.mp hd with rfl | hr
       · omega
       · exact hb1 d hr
-    have henc : encode (a :: b :: rest) = ladder st (a :: b :: rest) := by
-      simp [encode, determineDelta, subI64, hd0, hst]
     suffices hl : ∃ l, ladder st (a :: b :: rest) = .ok l ∧ decode l = .ok (a :: b :: rest) by
       obtain ⟨l, e1, e2⟩ := hl
       simp [roundtrip, henc, e1, e2]
@@ -88,25 +96,14 @@ theorem C16_ints_roundtrip_partial (xs : List Int) (hall : AllI64 xs)
       C16_ints_delta_layout w a (b :: rest) hall (fun d hd => by have := hall1 d hd; omega)
     have hDD : ∀ w : Width, st.minDD ≥ w.lo ∧ st.maxDD ≤ w.hi →
         ∃ l, mkDDelta w (a :: b :: rest) = .ok l ∧ decode l = .ok (a :: b :: rest) := fun w hw =>
-      C16_ints_ddelta_layout w a b rest hall hd0 hds (fun d hd => by have := hb2 d hd; omega)
+      C16_ints_ddelta_layout w a b rest hall (fun d hd => by have := hb2 d hd; omega)
     unfold ladder
     split
     · -- Range
       rename_i hr
       have hc : ∀ d ∈ deltasFrom a (b :: rest), d = st.minDelta := by
         intro d hd; have := hall1 d hd; omega
-      have hs : b - a = st.minDelta := hc _ (by simp [deltasFrom])
-      have hm : inI64 (((b :: rest).length : Int) * st.minDelta) := by
-        have hallEq : (deltasFrom b rest).all (· == (b - a)) = true := by
-          simp only [List.all_eq_true, beq_iff_eq]
-          intro d hd; rw [hs]; exact hc d (by simp [deltasFrom, hd])
-        simp only [rangeMulOverflows, deltas, deltasFrom, hallEq, Bool.true_and, List.length_cons] at h2
-        simp only [hd0, decide_true, Bool.true_and, Bool.not_eq_false', decide_eq_true_eq] at h2
-        rw [← hs]
-        have e : ((rest.length + 1 + 1 : Nat) : Int) - 1 = ((rest.length + 1 : Nat) : Int) := by omega
-        rw [e] at h2
-        simpa using h2
-      exact ⟨_, rfl, C16_ints_range_layout a st.minDelta (b :: rest) hall hc hm⟩
+      exact ⟨_, rfl, C16_ints_range_layout a st.minDelta (b :: rest) hall hc⟩
     · split
       · rename_i hw; exact hD .w8 hw
       · split
@@ -121,44 +118,25 @@ theorem C16_ints_roundtrip_partial (xs : List Int) (hall : AllI64 xs)
                 · rename_i hw; exact hDD .w32 hw
                 · exact ⟨_, rfl, rfl⟩
 
-/-- Non-vacuity: the hypotheses hold for an ordinary sequence that takes the double-delta-i8 branch
-    (and the conclusion computes). -/
-example : AllI64 [5, 1000005, 2000004, 3000009] ∧ diffOverflows [5, 1000005, 2000004, 3000009] = false ∧
-    rangeMulOverflows [5, 1000005, 2000004, 3000009] = false ∧
+/-- Non-vacuity, and the witnesses of the two former findings on the model of the fixed code:
+    an ordinary sequence takes the double-delta-i8 branch; `[MIN, MAX, 0]` (adjacent difference 2^64-1) is sent
+    plain; `[MIN, 0, MAX]` (first differences 2^63, 2^63-1; second difference -1) takes the double-delta-i8
+    branch with wrapped first differences; `[MIN, -1, MAX-1]` is Range(MIN, 3, MAX) and decodes exactly. -/
+example : AllI64 [5, 1000005, 2000004, 3000009] ∧
     encode [5, 1000005, 2000004, 3000009] = .ok (.ddelta .w8 5 1000005 [-1, 6]) := by
-  refine ⟨?_, by decide, by decide, by rfl⟩
+  refine ⟨?_, by rfl⟩
   intro x hx; simp at hx; rcases hx with rfl | rfl | rfl | rfl <;> decide
 
-/-- The first exclusion is exact: whenever an adjacent difference overflows i64 the serializer panics. -/
-theorem C16_ints_delta_overflow_faults (xs : List Int) (h : diffOverflows xs = true) :
-    encode xs = .error .overflow := by
-  match xs, h with
-  | [], h => simp [diffOverflows, deltas] at h
-  | [a], h => simp [diffOverflows, deltas, deltasFrom] at h
-  | a :: b :: rest, h =>
-    simp only [diffOverflows, deltas, List.any_eq_true, Bool.not_eq_true', decide_eq_false_iff_not] at h
-    obtain ⟨d, hm, hn⟩ := h
-    by_cases hd0 : inI64 (b - a)
-    · rcases mem_deltasFrom_cons.mp hm with rfl | hr
-      · exact absurd hd0 hn
-      · simp [encode, determineDelta, subI64, hd0, statsLoop_fault rest b _ _ ⟨d, hr, hn⟩]
-    · simp [encode, determineDelta, subI64, hd0]
-
-/-- The full statement is refuted on the model by the witnesses of the two open findings
-    (the same inputs panic in the real code; they head the harness corpus). -/
-theorem C16_ints_refuted : ¬ C16_ints_statement := by
-  intro h
-  have := h [-9223372036854775808, 9223372036854775807, 0]
-    (by intro x hx; simp at hx; rcases hx with rfl | rfl | rfl <;> decide)
-  exact absurd this (by simp [roundtrip, encode, determineDelta, subI64, inI64, I64_MIN, I64_MAX])
-
-theorem C16_ints_range_refuted :
-    AllI64 [-9223372036854775808, -1, 9223372036854775806] ∧
-    encode [-9223372036854775808, -1, 9223372036854775806]
-      = .ok (.range (-9223372036854775808) 3 9223372036854775807) ∧
-    decode (.range (-9223372036854775808) 3 9223372036854775807) = .error .overflow := by
-  refine ⟨?_, by rfl, by rfl⟩
-  intro x hx; simp at hx; rcases hx with rfl | rfl | rfl <;> decide
+example : roundtrip [-9223372036854775808, 9223372036854775807, 0]
+    = .ok [-9223372036854775808, 9223372036854775807, 0] := by rfl
+example : encode [-9223372036854775808, 0, 9223372036854775807]
+    = .ok (.ddelta .w8 (-9223372036854775808) 0 [-1]) ∧
+    decode (.ddelta .w8 (-9223372036854775808) 0 [-1]) = .ok [-9223372036854775808, 0, 9223372036854775807] :=
+  ⟨by rfl, by rfl⟩
+example : encode [-9223372036854775808, -1, 9223372036854775806]
+    = .ok (.range (-9223372036854775808) 3 9223372036854775807) ∧
+    decode (.range (-9223372036854775808) 3 9223372036854775807)
+      = .ok [-9223372036854775808, -1, 9223372036854775806] := ⟨by rfl, by rfl⟩
 
 /-! ## Ingestion message (event buffer) -/
 section EventBuffer
@@ -218,6 +196,60 @@ theorem C16_eventbuffer_sparse_string_asserts :
     pushAll .empty 0 [.null, .str "x61"] = .error .assert ∧
     (∃ d, pushAll .empty 0 [.str "x61", .null] = .ok d ∧ fromColumnData d 2 = .error .assert) := by
   exact ⟨by rfl, ⟨.str ["x61"], by rfl, by rfl⟩⟩
+
+/-- CLIENT SIDE.  `LoggingClient::log` over any sequence of events for any number of tables, the request body
+    `create_request_data` builds from the buffer, `/insert_bin`'s decode (wire = identity) and
+    `from_column_data`: for events whose rows have distinct column names and whose columns are in the supported
+    domain, no `log` call panics; the request contains exactly the tables that were logged to; each table
+    carries the number of rows logged for it, exactly the columns its rows mention (plus the implicit
+    `timestamp`), and every column shows the specified cells (`C16_eventbuffer_cells` per table — tables do
+    not interfere). -/
+theorem C16_client_message (evs : List Event)
+    (hnd : ∀ e ∈ evs, (e.2.1.map (·.1)).Nodup)
+    (hs : ∀ u c, Supported (colVals c (rowsOf u evs))) :
+    ∃ b, logAll [] evs = .ok b ∧ ∀ u,
+      (b.lookup u).isSome = evs.any (fun e => e.1 == u) ∧
+      (getTable b u).len = (rowsOf u evs).length ∧
+      ∀ c, (∃ ic, fromColumnData (getCol (getTable b u).cols c) (getTable b u).len = .ok ic ∧
+              ic.cells = specCells (colVals c (rowsOf u evs))) ∧
+        (((getTable b u).cols.lookup c).isSome =
+          (rowsOf u evs).any fun rc => (effRow rc.1 rc.2).any (fun e => e.1 == c)) := by
+  have hrows : ∀ u, ∀ rc ∈ rowsOf u evs, (rc.1.map (·.1)).Nodup := by
+    intro u rc hrc
+    simp only [rowsOf, List.mem_map, List.mem_filter] at hrc
+    obtain ⟨e, ⟨he, _⟩, rfl⟩ := hrc
+    exact hnd e he
+  have htab := fun u => C16_eventbuffer_cells (rowsOf u evs) (hrows u) (hs u)
+  obtain ⟨b, e, p, k⟩ := logAll_spec evs []
+    (fun u => let ⟨t, ht, _⟩ := htab u; ⟨t, by simpa [getTable] using ht⟩)
+  refine ⟨b, e, fun u => ?_⟩
+  obtain ⟨t, ht, hl, hc⟩ := htab u
+  have hp := p u
+  simp only [getTable, List.lookup_nil, Option.getD_none] at hp
+  rw [ht] at hp
+  have hbt : getTable b u = t := by
+    cases hp; rfl
+  refine ⟨by simpa using k u, by rw [hbt]; exact hl, fun c => ?_⟩
+  rw [hbt]; exact hc c
+
+/-- Non-vacuity: two tables logged alternately, one with a sparse int column promoted to float. -/
+example :
+    let evs : List Event :=
+      [("t", [("a", .int 1)], 7), ("u", [("s", .str "x61")], 8), ("t", [], 9), ("t", [("a", .float 0)], 10)]
+    (∀ e ∈ evs, (e.2.1.map (·.1)).Nodup) ∧
+    (∀ u ∈ ["t", "u"], ∀ c ∈ ["a", "s", "timestamp"], Supported (colVals c (rowsOf u evs))) ∧
+    (rowsOf "t" evs).length = 3 := by
+  refine ⟨by decide, by decide, by decide⟩
+
+/-- CLIENT SESSION.  `log` calls interleaved with worker ticks (whose POST succeeds): the requests sent are exactly
+    one per non-empty batch of events between two ticks, each built from an empty buffer
+    (`buffer.tables.clear()`), and the last batch stays in the buffer — no event is lost, duplicated or moved
+    across a flush boundary.  With `C16_client_message` every request decodes to its batch. -/
+theorem C16_client_session (steps : List Step) : session [] steps = sessionSpec (batches [] steps) :=
+  session_spec steps [] [] rfl
+
+example : batches [] [.log ("t", [], 1), .tick, .tick, .log ("u", [], 2)] = [[("t", [], 1)], [], [("u", [], 2)]] := by
+  rfl
 
 end EventBuffer
 
